@@ -288,6 +288,10 @@ class StmtMixin:
     def sym_elem(self, it, site):
         """(element value, description of the iterable) for a symbolic iteration."""
         if isinstance(it, UList):
+            lo_hi = self.intervals.get(f"len({it.path()})")
+            if lo_hi is not None and lo_hi[1] is not None and lo_hi[1] <= 1 and not it.derived:
+                # the list has exactly one element on this path: the element IS element 0
+                return it.elem(0), it.path()
             self._star_counter[it.path()] = self._star_counter.get(it.path(), 0) + 1
             n = self._star_counter[it.path()]
             label = "*" if n == 1 else f"*{n}"
